@@ -472,7 +472,18 @@ var goroutineHdr = regexp.MustCompile(`^goroutine (\d+) \[`)
 // waiting for the group, (b) goroutines parked in managedHandleSyncConn →
 // io.ReadFull on a connection.
 func classifyDump(d string) (closeWaiting bool, readers map[string]bool) {
-	readers = map[string]bool{}
+	closeWaiting, readers, _ = classifyDump3(d)
+	return
+}
+
+// syncWriters returns the sync handler goroutines parked in conn.Write.
+func syncWriters(d string) map[string]bool {
+	_, _, w := classifyDump3(d)
+	return w
+}
+
+func classifyDump3(d string) (closeWaiting bool, readers, writers map[string]bool) {
+	readers, writers = map[string]bool{}, map[string]bool{}
 	for _, blk := range strings.Split(d, "\n\n") {
 		if strings.Contains(blk, "(*GCAServer).Close") && strings.Contains(blk, "(*ThreadGroup).Stop") && strings.Contains(blk, "(*WaitGroup).Wait") {
 			closeWaiting = true
@@ -480,6 +491,11 @@ func classifyDump(d string) (closeWaiting bool, readers map[string]bool) {
 		if strings.Contains(blk, "managedHandleSyncConn") && (strings.Contains(blk, "io.ReadFull") || strings.Contains(blk, "io.ReadAtLeast")) && strings.Contains(blk, "net.(*conn).Read") {
 			if m := goroutineHdr.FindStringSubmatch(strings.TrimLeft(blk, "\n")); m != nil {
 				readers[m[1]] = true
+			}
+		}
+		if strings.Contains(blk, "managedHandleSyncConn") && strings.Contains(blk, "net.(*conn).Write") {
+			if m := goroutineHdr.FindStringSubmatch(strings.TrimLeft(blk, "\n")); m != nil {
+				writers[m[1]] = true
 			}
 		}
 	}
@@ -585,8 +601,20 @@ func (w *world) closeJudged(ctx string, held []net.Conn, desc string) bool {
 		}
 	}
 	sort.Strings(common)
+	var commonW []string
+	w1, w2 := syncWriters(d1), syncWriters(d2)
+	for g := range w1 {
+		if w2[g] {
+			commonW = append(commonW, g)
+		}
+	}
+	sort.Strings(commonW)
 	ok := true
-	if c1 && c2 && len(common) > 0 && len(held) > 0 {
+	if c1 && c2 && len(commonW) > 0 && len(common) == 0 && len(held) > 0 {
+		w.r.Violationf("shutdown-blocked-by-non-reading-sync-peer", map[string]interface{}{"scenario": desc, "context": ctx, "batch": w.b, "goroutines": dumpExcerpt(d2), "parked_handlers": commonW},
+			"Close() has not returned after %.0f s: it waits in ThreadGroup.Stop while %d sync handler goroutine(s) (ids %v, same in two dumps %v apart) are parked in conn.Write towards peers that sent a valid request and do not read the response – permanent while the peer does not read", time.Since(t0).Seconds(), len(commonW), commonW, wait/2+2*time.Second)
+		ok = false
+	} else if c1 && c2 && len(common) > 0 && len(held) > 0 {
 		w.r.Violationf("shutdown-blocked-by-idle-sync-connection", map[string]interface{}{"scenario": desc, "context": ctx, "batch": w.b, "goroutines": dumpExcerpt(d2), "parked_handlers": common},
 			"Close() has not returned after %.0f s: it waits in ThreadGroup.Stop while %d sync handler goroutine(s) (ids %v, same in two dumps %v apart) are parked in io.ReadFull on connections the peer keeps idle – permanent while the peer stays idle", time.Since(t0).Seconds(), len(common), common, wait/2+2*time.Second)
 		ok = false
